@@ -301,8 +301,8 @@ def icg_cases(ctx):
                       "unknown": list(unknown), "oracle": oracle})
 
     # exact stream
-    for n in ([2, 3, 4, 5] if q else [1, 2, 3, 4, 5, 6]):
-        reps = (6 if q else 40) if n <= 4 else (3 if q else 15)
+    for n in ([2, 3, 4, 5] if q else [1, 2, 3, 4, 5, 6, 7]):
+        reps = (6 if q else 80) if n <= 4 else (3 if q else (30 if n <= 6 else 4))
         for _ in range(reps):
             add(n, games.sa_closure_game(rng, n, "int"), "closure-int", "exact")
             add(n, games.sa_closure_game(rng, n, "dyadic"), "closure-dyadic", "exact")
@@ -318,9 +318,11 @@ def icg_cases(ctx):
             add(n, sam, "sam-" + ("int" if isinstance(sam[-1], int) else "dyadic"), "exact")
     # float stream: harness generators
     for n in ([3, 4, 5] if q else [2, 3, 4, 5, 6]):
-        reps = 6 if q else 40
+        reps = 6 if q else 80
         for _ in range(reps):
             add(n, games.sa_closure_game(rng, n, "float"), "closure-float", "float")
+            sc = rng.choice([2.0 ** -20, 2.0 ** -40, 2.0 ** 20, 2.0 ** 40])        # power-of-two scaling keeps exact superadditivity
+            add(n, [x * sc for x in games.sa_closure_game(rng, n, "float")], "closure-float-scaled", "float")
             add(n, additive_game(rng, n, "float"), "additive-float", "float")
             for _ in range(2):
                 v, src = nearly_additive(rng, n, "float")
@@ -328,7 +330,7 @@ def icg_cases(ctx):
     # float stream: every registered family
     fams = repo_families()
     ns = [3, 4] if q else [3, 4, 5, 6]
-    nseeds = 2 if q else 8
+    nseeds = 2 if q else 16
     for name in fams:
         for n in ns:
             for _ in range(nseeds if n <= 5 else max(2, nseeds // 3)):
@@ -346,7 +348,7 @@ def icg_cases(ctx):
     # the families named in the finding, more seeds (additive / nearly additive outputs are common there)
     for name in ["oxs", "xos2", "xos3", "xos", "xs2"]:
         for n in [3, 4]:
-            for _ in range(4 if q else 25):
+            for _ in range(4 if q else 60):
                 seed = rng.randrange(2 ** 31)
                 kind, val = repo_game(name, n, seed)
                 if kind == "table":
@@ -379,6 +381,8 @@ def graph_cases(ctx):
             add(n, [[rng.randint(0, 9) for _ in range(n)] for _ in range(n)], "graph-int", "exact")
             add(n, [[Fraction(rng.randint(0, 640), 64) for _ in range(n)] for _ in range(n)], "graph-dyadic", "exact")
             add(n, [[rng.random() * 10 for _ in range(n)] for _ in range(n)], "graph-float", "float")
+            sc = rng.choice([1e-6, 1e-12, 1e6])
+            add(n, [[rng.random() * sc for _ in range(n)] for _ in range(n)], "graph-float-scaled", "float")
             add(n, [[rng.randint(-9, 9) for _ in range(n)] for _ in range(n)], "graph-int-negative(not SA)", "exact", oracle=False)
             add(n, [[rng.randint(0, 9) for _ in range(n)] for _ in range(n)], "graph-int-raw-matrix", "exact", raw=True, oracle=False)
             add(n, [[rng.random() for _ in range(n)] for _ in range(n)], "graph-float-raw-matrix", "float", raw=True, oracle=False)
@@ -712,11 +716,13 @@ def run_graph(ctx, cases):
                 fails += [(f[0] | f[1], "normalised graph game not superadditive", f) for f in sa_failures(n, vals, 3 * EPS)]
             ctx.count("oracle_branch", "graph:" + branch)
             if fails:
-                cc = dict(c)
-                ctx.violation(f"C15 graph oracle fails: {c['src']} n={n}: coalition {fails[0][0]}: {fails[0][1]}: {fails[0][2]}",
-                              case_replay(c, {"oracle": "graph", "offending_coalition": fails[0][0], "offending": fails[0][1],
-                                              "observed": str(fails[0][2]), "all_failures": [str(f) for f in fails[:8]],
-                                              "impl_values_after_normalize": impl["values"]}), found_input=True)
+                c["_oracle_failed"] = True
+                PENDING.append((0, c["src"], dict(
+                    what=f"C15 graph oracle fails: {c['src']} n={n}: coalition {fails[0][0]}: {fails[0][1]}: {fails[0][2]}",
+                    replay=case_replay(c, {"oracle": "graph", "offending_coalition": fails[0][0], "offending": fails[0][1],
+                                           "observed": str(fails[0][2]), "all_failures": [str(f) for f in fails[:8]],
+                                           "impl_values_after_normalize": impl["values"]}),
+                    found_input=True, key=None)))
         else:
             ctx.count("oracle_branch", "graph: not run (correspondence only)")
         ctx.sample({"representation": "graph", "n": n, "source": c["src"], "matrix": [fl(r) for r in c["W"]][:4],
